@@ -7,6 +7,7 @@ package ugo
 import (
 	"fmt"
 	"io"
+	"math"
 	"reflect"
 
 	"github.com/ozanh/ugo/internal"
@@ -477,8 +478,14 @@ func (c *Compiler) addConstant(obj Object) (index int) {
 		}
 	}()
 
-	switch obj.(type) {
+	switch v := obj.(type) {
 	case Int, Uint, String, Bool, Float, Char, *UndefinedType:
+		if f, ok := v.(Float); ok && f == 0 && math.Signbit(float64(f)) {
+			// -0.0 and 0.0 are equal as map keys: never serve one for the other
+			index = len(c.constants)
+			c.constants = append(c.constants, obj)
+			return
+		}
 		i, ok := c.constsCache[obj]
 		if ok {
 			index = i
